@@ -7,7 +7,7 @@ import Mathlib.Algebra.Order.Field.Basic
 # C14: `clipLine` (/repo fix: small operands are scaled up by a power of two before the clipper is called)
 
 `clipLine(l, p)` (linestring.go) computes the largest absolute coordinate `m` of the line and the
-polygonal; if `2^-1000 ≤ m < 1/2` both operands are multiplied by `s = 2^-e` (`m = f·2^e`, `1/2 ≤ f < 1`),
+polygonal; if `2^-1022 ≤ m < 1/2` both operands are multiplied by `s = 2^-e` (`m = f·2^e`, `1/2 ≤ f < 1`),
 `Polygon.op(…, CLIPLINE)` is called on the scaled copies and the rings that come back are multiplied by
 `1/s`; otherwise `op` is called on the operands as they are.
 
@@ -36,10 +36,10 @@ def maxAbs (r : List P) (m : Rat) : Rat :=
 
 def maxAbsC (cs : Contours) (m : Rat) : Rat := cs.foldl (fun m r => maxAbs r m) m
 
-/-- `0x1p-1000` -/
-def tinyLo : Rat := ((1 : Rat) / (10715086071862673209484250490600018105614048117055336074437503883703510511249361224931983788156958581275946729175531468251871452856923140435984577574698574803934567774824230985421074605062371141877954182153046474983581941267398767559165543946077062914571196477686542167660429831652624386837205668069376 : Rat))
+/-- `0x1p-1022`, the smallest normal binary64 number -/
+def tinyLo : Rat := ((1 : Rat) / (44942328371557897693232629769725618340449424473557664318357520289433168951375240783177119330601884005280028469967848339414697442203604155623211857659868531094441973356216371319075554900311523529863270738021251442209537670585615720368478277635206809290837627671146574559986811484619929076208839082406056034304 : Rat))
 
-/-- the guard of `clipLine`: `!(m >= 0x1p-1000 && m < 0.5)` -/
+/-- the guard of `clipLine`: `!(m >= 0x1p-1022 && m < 0.5)` -/
 def noScale (m : Rat) : Bool := !((decide (m ≥ tinyLo)) && (decide (m < ((1 : Rat) / (2 : Rat)))))
 
 /-- the factor `clipLine` multiplies by (1 = the operands are clipped as they are) -/
